@@ -173,7 +173,8 @@ TExt == /\ IsEvent("ext") /\ UNCHANGED <<fs, objs, errloc, Globals>>
 TKeys == /\ IsEvent("keys") /\ UNCHANGED <<fs, objs, errloc, Globals>>
          /\ IF ~Known(Ev.h) THEN UNCHANGED diverged
             \* the key listing takes the section name literally ("[A]" is not "A": KeyFile!NormGK); NULL and "" mean group-less
-            ELSE LET ks == Dedup0(KeysE(objs[Ev.h], IF Ev.g = <<>> THEN NoGrp ELSE Ev.g[1])) IN
+            \* a key that a parsed file defines twice is listed twice (one item per entry, KeyFile!KeysIn)
+            ELSE LET ks == KeysE(objs[Ev.h], IF Ev.g = <<>> THEN NoGrp ELSE Ev.g[1]) IN
                  IF ks = <<>> THEN Check(~Ok(Ev.rc), [rc |-> "ECONF_NOKEY"]) ELSE Check(Ok(Ev.rc) /\ Ev.out = ks, [out |-> ks])
 TGroups == /\ IsEvent("groups") /\ UNCHANGED <<fs, objs, errloc, Globals>>
            /\ IF ~Known(Ev.h) THEN UNCHANGED diverged
